@@ -1399,3 +1399,233 @@ Proof.
   { intros c et ef H1 H2. rewrite dget_strip_c, H1 in H2. cbn in H2. injection H2 as <-. reflexivity. }
   unfold dmapv. rewrite map_map. reflexivity.
 Qed.
+
+(** ** (e) the counts do not depend on the order of the statements *)
+
+Theorem cnt_perm dir tau I G G' i p k :
+  Permutation G G' -> cnt dir tau I G i p k = cnt dir tau I G' i p k.
+Proof. intros H. unfold cnt. apply sumN_perm. apply Permutation_map. assumption. Qed.
+
+Theorem occ_perm dir tau I G G' c p k card :
+  Permutation G G' -> occ dir tau I G c p k card = occ dir tau I G' c p k card.
+Proof.
+  intros H. unfold occ. apply sumN_map_ext. intros ie _.
+  rewrite (cnt_perm dir tau I G G' (fst ie) p k H). reflexivity.
+Qed.
+
+(** [class_count I c] does not mention the graph at all; stated for symmetry *)
+Theorem class_count_perm (I : insts) (G G' : graph) c :
+  Permutation G G' -> class_count I c = class_count I c.
+Proof. reflexivity. Qed.
+
+(** nor does the success of the feature pass *)
+Theorem annotate_all_ok_perm tau inv I G G' :
+  Permutation G G' ->
+  (exists ID, annotate_all tau inv G (adapt I) = inl ID) ->
+  (exists ID, annotate_all tau inv G' (adapt I) = inl ID).
+Proof.
+  intros HP H. apply annotate_all_ok_iff.
+  pose proof (proj1 (annotate_all_ok_iff tau inv I G) H) as H'.
+  intros t Ht. apply H'. apply Permutation_in with (l := G'); [apply Permutation_sym|]; assumption.
+Qed.
+
+(** ** (d) cleaning *)
+
+Definition clean_entry (ks : list str) (e : centry) : centry :=
+  {| c_direct := remove_keys_pdict ks (c_direct e);
+     c_inverse := remove_keys_pdict ks (c_inverse e) |}.
+
+Definition not_in (ks : list str) (k : str) : bool := negb (mem_str k ks).
+
+Lemma remove_keys_pdict_dmapv ks d :
+  remove_keys_pdict ks d = dmapv (dfilter (not_in ks)) d.
+Proof. reflexivity. Qed.
+
+Lemma remove_iteration_eq ks P :
+  remove_iteration ks P = dfilter (not_in ks) (dmapv (clean_entry ks) P).
+Proof. reflexivity. Qed.
+
+Lemma filter_all_false {A : Type} (f : A -> bool) l :
+  (forall x, In x l -> f x = false) -> filter f l = [].
+Proof.
+  induction l as [|x l IH]; cbn; [reflexivity|]. intros H.
+  rewrite (H x) by auto. apply IH. intros y Hy. apply H. auto.
+Qed.
+
+Lemma remove_keys_pdict_nil d : remove_keys_pdict [] d = d.
+Proof.
+  rewrite remove_keys_pdict_dmapv. apply dmapv_id. apply Forall_forall. intros [p m] _. cbn [snd].
+  apply dfilter_true. intros k _. reflexivity.
+Qed.
+
+Lemma clean_entry_nil e : clean_entry [] e = e.
+Proof. unfold clean_entry. rewrite !remove_keys_pdict_nil. destruct e; reflexivity. Qed.
+
+Lemma remove_iteration_nil P : remove_iteration [] P = P.
+Proof.
+  rewrite remove_iteration_eq. rewrite dfilter_true by (intros k _; reflexivity).
+  apply dmapv_id. apply Forall_forall. intros [c e] _. cbn [snd]. apply clean_entry_nil.
+Qed.
+
+(** removing type keys never empties or creates a property dictionary, so
+    "has features" is stable under cleaning *)
+Lemma has_features_clean_entry inv ks e : has_features inv (clean_entry ks e) = has_features inv e.
+Proof.
+  unfold has_features, clean_entry. cbn [c_direct c_inverse].
+  destruct (c_direct e); cbn; [|reflexivity].
+  destruct inv; [|reflexivity]. destruct (c_inverse e); reflexivity.
+Qed.
+
+Definition removable (inv : bool) (labels : list str) (ce : str * centry) : bool :=
+  negb (mem_str (fst ce) labels) && negb (has_features inv (snd ce)).
+
+Lemma shapes_to_remove_eq inv labels P :
+  shapes_to_remove inv labels P = map fst (filter (removable inv labels) P).
+Proof. reflexivity. Qed.
+
+(** which class keys are removed: not an original label and no features *)
+Lemma In_shapes_to_remove inv labels P c :
+  In c (shapes_to_remove inv labels P) <->
+  exists e, In (c, e) P /\ ~ In c labels /\ has_features inv e = false.
+Proof.
+  rewrite shapes_to_remove_eq, in_map_iff. split.
+  - intros [[c' e] [E H]]. cbn in E. subst c'. apply filter_In in H. destruct H as [H R].
+    unfold removable in R. cbn [fst snd] in R. apply andb_true_iff in R. destruct R as [R1 R2].
+    exists e. split; [assumption|]. split.
+    + apply mem_str_false. apply negb_true_iff. assumption.
+    + apply negb_true_iff. assumption.
+  - intros [e [H [NL NF]]]. exists (c, e). split; [reflexivity|]. apply filter_In. split; [assumption|].
+    unfold removable. cbn [fst snd]. apply mem_str_false in NL. rewrite NL, NF. reflexivity.
+Qed.
+
+(** after one iteration nothing is left to remove *)
+Lemma shapes_to_remove_stable inv labels P :
+  shapes_to_remove inv labels (remove_iteration (shapes_to_remove inv labels P) P) = [].
+Proof.
+  set (ks := shapes_to_remove inv labels P).
+  rewrite shapes_to_remove_eq. rewrite filter_all_false; [reflexivity|].
+  intros [c e'] H. rewrite remove_iteration_eq in H. unfold dfilter in H.
+  apply filter_In in H. destruct H as [H NK]. cbn [fst] in NK.
+  unfold dmapv in H. apply in_map_iff in H. destruct H as [[c0 e] [E H]]. cbn [fst snd] in E.
+  injection E as -> <-.
+  unfold removable. cbn [fst snd]. rewrite has_features_clean_entry.
+  destruct (negb (mem_str c labels) && negb (has_features inv e)) eqn:R; [|reflexivity].
+  exfalso. unfold not_in in NK. apply negb_true_iff, mem_str_false in NK. apply NK.
+  unfold ks. rewrite shapes_to_remove_eq. apply in_map_iff. exists (c, e). split; [reflexivity|].
+  apply filter_In. split; [assumption | exact R].
+Qed.
+
+(** *** (d) cleaning is exactly one removal round and never fails *)
+Theorem clean_profile_char fuel inv labels P :
+  clean_profile (S fuel) inv labels P =
+  inl (remove_iteration (shapes_to_remove inv labels P) P).
+Proof.
+  cbn [clean_profile]. destruct (shapes_to_remove inv labels P) as [|k ks] eqn:E.
+  - rewrite remove_iteration_nil. reflexivity.
+  - destruct fuel as [|fuel]; [reflexivity|]. cbn [clean_profile].
+    rewrite <- E, shapes_to_remove_stable. reflexivity.
+Qed.
+
+(** what one removal round does to the class keys ... *)
+Lemma dkeys_remove_iteration ks P :
+  dkeys (remove_iteration ks P) = filter (not_in ks) (dkeys P).
+Proof. rewrite remove_iteration_eq, dkeys_dfilter, dkeys_dmapv. reflexivity. Qed.
+
+(** ... to the class entries ... *)
+Lemma dget_remove_iteration ks P c :
+  dget (remove_iteration ks P) c =
+  if mem_str c ks then None else option_map (clean_entry ks) (dget P c).
+Proof.
+  rewrite remove_iteration_eq, dget_dfilter, dget_dmapv. unfold not_in.
+  destruct (mem_str c ks); reflexivity.
+Qed.
+
+(** ... and to the type-key dictionaries: exactly the type keys equal to a
+    removed class key disappear, properties and every other entry stay *)
+Lemma dkeys_remove_keys_pdict ks d : dkeys (remove_keys_pdict ks d) = dkeys d.
+Proof. rewrite remove_keys_pdict_dmapv. apply dkeys_dmapv. Qed.
+
+Lemma dget_remove_keys_pdict ks d p :
+  dget (remove_keys_pdict ks d) p = option_map (dfilter (not_in ks)) (dget d p).
+Proof. rewrite remove_keys_pdict_dmapv. apply dget_dmapv. Qed.
+
+Lemma plook_remove_keys_pdict ks d p k card :
+  plook (remove_keys_pdict ks d) p k card = if mem_str k ks then 0 else plook d p k card.
+Proof.
+  unfold plook. rewrite dget_remove_keys_pdict. destruct (dget d p) as [m|]; cbn [option_map].
+  - rewrite dget_dfilter. unfold not_in. destruct (mem_str k ks); reflexivity.
+  - destruct (mem_str k ks); reflexivity.
+Qed.
+
+Lemma pmem_remove_keys_pdict ks d p k :
+  pmem (remove_keys_pdict ks d) p k = negb (mem_str k ks) && pmem d p k.
+Proof.
+  unfold pmem. rewrite dget_remove_keys_pdict. destruct (dget d p) as [m|]; cbn [option_map].
+  - rewrite dmem_dfilter. reflexivity.
+  - rewrite andb_false_r. reflexivity.
+Qed.
+
+(** the type keys of a property keep their order *)
+Lemma dkeys_dget_remove_keys_pdict ks d p m :
+  dget d p = Some m ->
+  exists m', dget (remove_keys_pdict ks d) p = Some m' /\ dkeys m' = filter (not_in ks) (dkeys m).
+Proof.
+  intros H. rewrite dget_remove_keys_pdict, H. cbn. eexists. split; [reflexivity|]. apply dkeys_dfilter.
+Qed.
+
+(** *** the result of [profile], cleaning included *)
+Theorem profile_result c I g :
+  profile c I g =
+  match annotate_all (p_tau c) (p_inverse c) g (adapt I) with
+  | inr e => inr e
+  | inl ID =>
+    let '(P1, C0) := raw_profile c I ID in
+    inl (if p_remove_empty c
+         then remove_iteration (shapes_to_remove (p_inverse c) (orig_labels c) P1) P1
+         else P1, C0, ID)
+  end.
+Proof.
+  rewrite profile_unfold. destruct (annotate_all (p_tau c) (p_inverse c) g (adapt I)) as [ID|e]; [|reflexivity].
+  destruct (raw_profile c I ID) as [P1 C0]. destruct (p_remove_empty c); [|reflexivity].
+  rewrite clean_profile_char. reflexivity.
+Qed.
+
+(** cleaning is the only way [profile] could fail after the feature pass, and
+    it does not *)
+Corollary profile_err c I g e :
+  profile c I g = inr e <-> annotate_all (p_tau c) (p_inverse c) g (adapt I) = inr e.
+Proof.
+  rewrite profile_result. destruct (annotate_all (p_tau c) (p_inverse c) g (adapt I)) as [ID|e'].
+  - destruct (raw_profile c I ID) as [P1 C0]. split; discriminate.
+  - split; intros H; injection H as ->; reflexivity.
+Qed.
+
+(** with [remove_empty_shapes=False], or when no class is featureless (or
+    every featureless one is an original label), [profile] returns the raw
+    profile unchanged *)
+Corollary profile_unchanged c I g ID P1 C0 :
+  annotate_all (p_tau c) (p_inverse c) g (adapt I) = inl ID ->
+  raw_profile c I ID = (P1, C0) ->
+  p_remove_empty c = false \/ shapes_to_remove (p_inverse c) (orig_labels c) P1 = [] ->
+  profile c I g = inl (P1, C0, ID).
+Proof.
+  intros HA HR H. rewrite profile_result, HA, HR. destruct H as [H|H].
+  - rewrite H. reflexivity.
+  - rewrite H, remove_iteration_nil. destruct (p_remove_empty c); reflexivity.
+Qed.
+
+Lemma shapes_to_remove_nil_iff inv labels P :
+  shapes_to_remove inv labels P = [] <->
+  forall c e, In (c, e) P -> In c labels \/ has_features inv e = true.
+Proof.
+  split.
+  - intros H c e Hce. destruct (mem_str c labels) eqn:ML; [left; apply mem_str_In; assumption|].
+    destruct (has_features inv e) eqn:HF; [right; reflexivity|]. exfalso.
+    assert (Hin : In c (shapes_to_remove inv labels P)).
+    { apply In_shapes_to_remove. exists e. split; [assumption|]. split; [apply mem_str_false|]; assumption. }
+    rewrite H in Hin. destruct Hin.
+  - intros H. destruct (shapes_to_remove inv labels P) as [|c ks] eqn:E; [reflexivity|]. exfalso.
+    assert (Hin : In c (shapes_to_remove inv labels P)) by (rewrite E; left; reflexivity).
+    apply In_shapes_to_remove in Hin. destruct Hin as [e [Hce [NL NF]]].
+    destruct (H c e Hce) as [H1|H1]; [contradiction | congruence].
+Qed.
